@@ -1,6 +1,7 @@
 //! Verification harness: runs the real implementation (path dependency on /repo)
 //! and prints canonical observations. One sub-command per engine.
 mod ast;
+mod codec;
 mod sat;
 mod tables;
 
@@ -15,6 +16,7 @@ fn main() {
     match args[1].as_str() {
         "tables" => tables::run(&args[2..]),
         "sat" => sat::run(&args[2..]),
+        "codec" => codec::run(&args[2..]),
         other => {
             eprintln!("unknown engine {}", other);
             std::process::exit(2);
